@@ -149,6 +149,12 @@ def oracle(spec, res):
     in_handler = src != 'main'
     if v in ('hang', 'deadlock', 'livelock'):
         out.append(V('wait_until_idle_never_returns', f'{res["verdict"]} idles={[(d["bus"], d["end"]) for d in tr.idles]}', in_handler=in_handler))
+        # name what was lost: accepted, still pending at the horizon, and sitting in no bus's queue (nobody will ever process it)
+        queued = {n for b in res['final'].get('buses', {}).values() for n in b.get('queue', [])}
+        acc = {d[4] for d in tr.dispatches if d[5] == 'ok'}
+        lost = [ev for ev, fe in res['final'].get('events', {}).items() if ev in acc and fe['status'] == 'pending' and ev not in queued and not fe['results']]
+        if lost and any('queue' in b for b in res['final'].get('buses', {}).values()):
+            out.append(V('accepted_event_in_no_queue_and_never_processed', f'{lost[:4]}', in_handler=in_handler))
     if v == 'raised':
         out.append(V('main_raised', str(res['verdict'])))
     last = {}
